@@ -73,8 +73,10 @@ def run_case(case, ctx):
                 args.append(arg)
                 fs.append([text_points(rp), data])
             arch = f"out_{vname}{ext}"
-            if case["old"] is not None:
-                cd.put(arch, materialize({"rand": 5, "len": case["old"]}))
+            if case["old"] is not None and vname != "rel":
+                # the reference variant writes to an absent target; the others over arbitrary old bytes of various lengths
+                k = [v[0] for v in VARIANTS].index(vname)
+                cd.put(arch, materialize({"rand": 5 + k, "len": case["old"] + (k - 2) * 1000 if case["old"] > 3000 else case["old"]}))
             vf = ["-v"] if verbose else []
             if tape:
                 r = run_tool(ctx, "tar", ["-c"] + vf + [arch] + args, cd)
